@@ -100,6 +100,47 @@ theorem bindAny {m : PM α} {f : α → PM β} {R : β → Prop} (hf : ∀ a, Po
   bind' hm (fun a _ => hf a)
 end Post
 
+/-- the successful runs only (for facts that need nothing about the crash sites) -/
+def PostOk {α : Type} (m : PM α) (Q : α → Prop) : Prop := ∀ s a s', m s = .ok a s' → Q a
+
+namespace PostOk
+variable {α β : Type} {Q : α → Prop}
+theorem of {m : PM α} (h : Post m Q) : PostOk m Q := h.ok
+theorem pure' {a : α} (h : Q a) : PostOk (pure a : PM α) Q := (Post.pure' h).ok
+theorem err : PostOk (Parser.err : PM α) Q := by intro s a s' h; simp [Parser.err] at h
+theorem pan : PostOk (Parser.pan : PM α) Q := by intro s a s' h; simp [Parser.pan] at h
+theorem div : PostOk (Parser.div : PM α) Q := by intro s a s' h; simp [Parser.div] at h
+theorem bind' {m : PM α} {f : α → PM β} {P : α → Prop} {R : β → Prop}
+    (hm : PostOk m P) (hf : ∀ a, P a → PostOk (f a) R) : PostOk (m >>= f) R := by
+  intro s b s'' h
+  simp only [bind] at h
+  cases hx : m s with
+  | ok a s' => rw [hx] at h; exact hf a (hm s a s' hx) s' b s'' h
+  | error => simp [hx] at h
+  | panic => simp [hx] at h
+  | diverge => simp [hx] at h
+theorem bindAny {m : PM α} {f : α → PM β} {R : β → Prop} (hf : ∀ a, PostOk (f a) R) : PostOk (m >>= f) R :=
+  bind' (P := fun _ => True) (fun _ _ _ _ => trivial) (fun a _ => hf a)
+theorem errBind {f : α → PM β} {R : β → Prop} : PostOk ((Parser.err : PM α) >>= f) R :=
+  bind' (P := fun _ => False) err (fun _ h => h.elim)
+theorem ite' {c : Prop} [Decidable c] {t e : PM α} (ht : c → PostOk t Q) (he : ¬c → PostOk e Q) :
+    PostOk (if c then t else e) Q := by
+  by_cases h : c
+  · simp only [h, if_true]; exact ht h
+  · simp only [h, if_false]; exact he h
+theorem mono {m : PM α} {P : α → Prop} (h : PostOk m P) (hpq : ∀ a, P a → Q a) : PostOk m Q :=
+  fun s a s' hm => hpq a (h s a s' hm)
+theorem and {m : PM α} {P : α → Prop} (h1 : PostOk m P) (h2 : PostOk m Q) : PostOk m (fun a => P a ∧ Q a) :=
+  fun s a s' hm => ⟨h1 s a s' hm, h2 s a s' hm⟩
+theorem ofOpt {o : Option α} (h : ∀ a, o = some a → Q a) : PostOk (Parser.ofOpt o) Q := by
+  cases o with
+  | none => exact err
+  | some a => exact pure' (h a rfl)
+end PostOk
+
+macro "po_bind" : tactic => `(tactic| refine PostOk.bindAny ?_)
+macro "po_if" : tactic => `(tactic| (apply PostOk.ite' <;> intro _))
+
 open Lean Meta Elab Tactic in
 /-- goal `Post (have jp := v; body) Q`  ⟶  `∀ jp, jp = v → Post body Q` (the join points of `do` blocks: the
     continuation is proved once) -/
@@ -108,7 +149,7 @@ elab "pm_jp" : tactic => do
   g.withContext do
   let tgt := (← instantiateMVars (← g.getType)).consumeMData
   let args := tgt.getAppArgs
-  unless tgt.getAppFn.isConstOf ``Post && args.size == 3 do throwError "pm_jp: not a Post goal"
+  unless (tgt.getAppFn.isConstOf ``Post || tgt.getAppFn.isConstOf ``PostOk) && args.size == 3 do throwError "pm_jp: not a Post goal"
   let m := args[1]!.consumeMData
   unless m.isLet do throwError "pm_jp: no let"
   let v := m.letValue!
@@ -129,7 +170,7 @@ elab "pm_beta" : tactic => do
   g.withContext do
   let tgt := (← instantiateMVars (← g.getType)).consumeMData
   let args := tgt.getAppArgs
-  unless tgt.getAppFn.isConstOf ``Post && args.size == 3 do throwError "pm_beta: not a Post goal"
+  unless (tgt.getAppFn.isConstOf ``Post || tgt.getAppFn.isConstOf ``PostOk) && args.size == 3 do throwError "pm_beta: not a Post goal"
   let g' ← g.replaceTargetDefEq (mkAppN tgt.getAppFn #[args[0]!, args[1]!.headBeta, args[2]!])
   replaceMainGoal [g']
 
